@@ -240,6 +240,12 @@ example : (step { q := 101, d := 5, size := 2, consts := [3] } {} (.write [0, 1,
     (step { q := 101, d := 5, size := 2, consts := [3] }
       (step { q := 101, d := 5, size := 2, consts := [3] } {} (.write [0, 1])).1 (.write [0, 2, 0, 3])).1 := by simp [step, run, flush, mp, compress, encrypt, round, sbox, decodeBlocks, pad, decBlock, beToNat, encBE, init]
 
+/-- digest size (`C14 mimc regsize`): `Sum(b)` appends exactly `P.size` bytes = one field element, in every state; this is
+the number that `hash.Hash.Size()` of the registry id and `Size()` of the hasher have to report -/
+theorem C14_mimc_digest_size (P : Params) (s : Digest) (b : Bytes) :
+    ∃ v, (step P s (.sum b)).2 = .bytes v ∧ v.length = b.length + P.size :=
+  ⟨_, rfl, by simp [encBE_length]⟩
+
 end GV.MiMC
 
 /-! ## Part 2: Poseidon2 and the Merkle–Damgård wrapper -/
@@ -457,6 +463,14 @@ example : let M : MD := { bs := 2, f := fun s b => some (List.zipWith (· + ·) 
 example : (mdStep { bs := 2, f := fun s b => some (List.zipWith (· + ·) s b), valid := fun _ => true, iv := [0, 0] }
     [0, 0] (.write [1, 2, 3, 4, 5])).1 = [4, 11] := by
   simp [mdStep, chunks, absorb]
+
+/-- digest size (`C14 md regsize`): the digest of the empty message of a registered Merkle–Damgård hasher is its iv,
+`(t/2)·eb` bytes -/
+theorem C14_md_digest_size (C : CInst) :
+    (mdStep C.md C.md.iv (.sum [])).2 = .bytes C.md.iv ∧ C.md.iv.length = (C.inst.t / 2) * C.eb := by
+  constructor
+  · simp [mdStep]
+  · simp [CInst.md]
 
 /-! ### koalabear/vortex sponge `HashPoseidon2`: the documented function is a function of the ZERO-PADDED input -/
 
